@@ -6,6 +6,7 @@ set -u
 cd /repo && [ -z "$(git status --short)" ] || { echo "/repo is not clean"; exit 2; }
 OUT=/verif/.cache/seed_all.txt; : > $OUT
 for D in /verif/seeded/${1:-*}/; do
+  [ -f $D/meta.json ] || continue
   ID=$(basename $D); P=$(python3 -c "import json;print(json.load(open('$D/meta.json'))['breaks_property'])")
   cd /repo && git apply $D/patch.diff 2>/dev/null || { echo "$ID $P PATCH-DOES-NOT-APPLY" | tee -a $OUT; continue; }
   ( cd /verif && ./check $P > /tmp/seed_all_$ID.txt 2>&1; echo $? > /tmp/seed_all_rc )
